@@ -221,3 +221,6 @@ func Settle() {
 
 // Tag names the scenario a harness is in; the engine appends it to the labels of panics, deadlocks and data races.
 func Tag(s string) {}
+
+// ExpireDeadline lets the nearest pending deadline of a context expire (symbolic run only; used by library models).
+func ExpireDeadline(ctx interface{}) bool { return false }
